@@ -34,16 +34,24 @@ def cache_accesses(p: Path, cache) -> List[Tuple[str, Any, Optional[Event]]]:
     return out
 
 
+_FACTS = [None]
+
+
 def is_yacc_parse(e: Event, selft) -> bool:
     if e.kind != 'call':
         return False
     f = freeze(e.func)
-    return isinstance(f, tuple) and f and f[0] == 'attr' and f[2] == 'parse' and \
-        isinstance(f[1], tuple) and f[1][:2] == ('attr', selft) and f[1][2] != 'parse_cache'
+    if not (isinstance(f, tuple) and f and f[0] == 'attr' and f[2] == 'parse' and isinstance(f[1], tuple)):
+        return False
+    if f[1][:2] == ('attr', selft) and f[1][2] != 'parse_cache':
+        return True
+    F_ = _FACTS[0] or common.CURRENT_FACTS[0]
+    return F_ is not None and f[1] in common.parser_terms(F_, selft)
 
 
 def check(chk: Check) -> None:
     F = chk.facts
+    _FACTS[0] = F
     R1 = chk.rule('C17.R1', 'exact-text key: every access to the parse cache uses the source string parameter itself, '
                             'and eval hands parse the same string whether or not a cache is present', floor=3)
     R2 = chk.rule('C17.R2', 'only successful parses are stored (store after the parser returned, outside except/finally), '
@@ -167,7 +175,11 @@ def check(chk: Check) -> None:
                 r3_problems.append('the parser is run %d times on one path' % len(yp))
             pos = p.events.index(yp[0])
             acc_ev = {id(x[2]) for x in acc}
-            sig = tuple((e.kind, e.text()) for e in p.events[:pos + 1] if e.kind not in ('assume',) and id(e) not in acc_ev)
+            # what is done to get the parser going: stores and calls that are not mere markers of inlined helpers, not cache
+            # traffic and not the internals of a cache stand-in (a null object's __contains__ has no effect on the parser)
+            sig = tuple((e.kind, e.text()) for e in p.events[:pos + 1]
+                        if e.kind not in ('assume', 'return', 'loop_test', 'loop_skip', 'binop') and id(e) not in acc_ev
+                        and not (e.kind == 'call' and e.d.get('inlined')))
             miss_sigs.add(sig)
             for k, key, e in stores:
                 n_store += 1
@@ -185,7 +197,7 @@ def check(chk: Check) -> None:
                 if om.mentions(ret, cache):
                     r2_problems.append(('miss return', p.events[-1].line, 'a miss re-reads the cache (`%s`) instead of returning the '
                                         'fresh tree: an evicting mapping breaks it' % show(ret)))
-                elif not om.mentions(ret, ('attr', selft, 'lex')) and not om.mentions(ret, yp[0].eid):
+                elif not om.mentions(ret, common.lexer_term(F, selft)) and not om.mentions(ret, yp[0].eid):
                     r2_problems.append(('miss return', p.events[-1].line, 'a miss returns %s, which is not the tree the parser just built' % show(ret)))
                 if not cache_absent and not stores:
                     r2_problems.append(('miss without store', p.events[-1].line, 'a miss with a cache present stores nothing'))
@@ -219,7 +231,7 @@ def check(chk: Check) -> None:
         if not yp:
             continue
         pos = p.events.index(yp[0])
-        tree_src = ('attr', ('attr', selft, 'lex'), 'ast')
+        tree_src = ('attr', common.lexer_term(F, selft), 'ast')
         for e in p.events[pos + 1:]:
             if e.kind in ('store_attr', 'store_sub', 'aug_attr', 'aug_sub', 'del_sub') and om.mentions(freeze(e.obj), tree_src):
                 r6.append('`%s` (line %d) modifies the tree after the parser returned' % (e.text(), e.line))
